@@ -395,3 +395,72 @@ func literalBytes(v ssa.Value) []int64 {
 func (c *Ctx) pkgConstAny(pkgPath, name string) (int64, bool) { return c.pkgConst(pkgPath, name) }
 
 var _ = core.Discharged
+
+// R15FailureCloses — a refused CONNECT is answered and the socket dropped.
+func R15FailureCloses(c *Ctx) {
+	const rule = "R15-failure-closes"
+	c.R.Rule(rule, "every path that continues after socks.SendConnectFailure in the agent's callback handling passes SocksClientClose before the function returns: the client of a refused/failed CONNECT gets its failure reply and is then closed and removed from the socket table, whether or not the reply could be written", 1)
+	n := 0
+	for _, fn := range c.P.ModuleFuncs(func(p string) bool { return p == PkgAgent }) {
+		closes := map[*ssa.BasicBlock][]int{}
+		for _, b := range fn.Blocks {
+			for i, in := range b.Instrs {
+				if call, ok := in.(ssa.CallInstruction); ok && CalleeName(call) == "(*Havoc/pkg/agent.Agent).SocksClientClose" {
+					closes[b] = append(closes[b], i)
+				}
+			}
+		}
+		for _, b := range fn.Blocks {
+			for i, in := range b.Instrs {
+				call, ok := in.(ssa.CallInstruction)
+				if !ok || CalleeName(call) != "Havoc/pkg/socks.SendConnectFailure" {
+					continue
+				}
+				n++
+				// same block, later instruction?
+				covered := false
+				for _, j := range closes[b] {
+					if j > i {
+						covered = true
+					}
+				}
+				leak := false
+				if !covered {
+					seen := map[*ssa.BasicBlock]bool{}
+					var walk func(x *ssa.BasicBlock)
+					walk = func(x *ssa.BasicBlock) {
+						if seen[x] || leak {
+							return
+						}
+						seen[x] = true
+						if len(closes[x]) > 0 {
+							return
+						}
+						if len(x.Succs) == 0 {
+							leak = true
+							return
+						}
+						for _, s := range x.Succs {
+							walk(s)
+						}
+					}
+					if len(b.Succs) == 0 {
+						leak = true
+					}
+					for _, s := range b.Succs {
+						walk(s)
+					}
+				}
+				construct := "SendConnectFailure → SocksClientClose on every path"
+				if !leak {
+					c.R.Ok(rule, FuncShort(fn), construct, c.pos(call.Pos()), "the failure reply is always followed by closing and removing the client", true)
+				} else {
+					c.R.Bad(rule, FuncShort(fn), construct, c.pos(call.Pos()), "after the failure reply a path reaches the end of the function without SocksClientClose: the client connection stays open and its id stays in the socket table")
+				}
+			}
+		}
+	}
+	if n == 0 {
+		c.R.Anchor(rule, "a call of socks.SendConnectFailure in package agent")
+	}
+}
